@@ -67,13 +67,21 @@ Definition top_rows := filter (fun r => String.eqb (cr_sub r) "") cmd_table.
 Definition modelled (name : string) : bool := match handler_of name with Some _ => true | None => false end.
 
 (** read-category commands: their purity is proved in [HandlerClasses] ([all_readonly_words_sound] —
-    list, generic, string, hash, set, sorted set), or they are not modelled at all (listed) *)
-Definition ro_not_modelled : list string := ["randomkey"; "touch"; "objectfreq"; "objectidletime"; "zrandmember"].
+    list, generic, string, hash, set, sorted set, incl. ZRANDMEMBER RANDOMKEY TOUCH OBJECTFREQ OBJECTIDLETIME);
+    no read-category row is left without a model handler (the list is empty on this tree) *)
+Definition ro_not_modelled : list string := [].
 
 Lemma read_rows_classified :
   forallb (fun r => negb (is_read_row r)
                     || mem (cr_name r) all_readonly_words
-                    || (mem (cr_name r) ro_not_modelled && negb (modelled (cr_name r)))) top_rows = true.
+                    || (mem (cr_name r) ro_not_modelled && negb (modelled (cr_name r)))) top_rows = true
+  /\ length (filter is_read_row top_rows) = 47%nat.
+Proof. vm_compute. split; reflexivity. Qed.
+
+(** every row of the six data modules has a model handler *)
+Definition data_modules : list string := ["list"; "hash"; "set"; "sortedset"; "generic"; "string"].
+Lemma data_rows_modelled :
+  forallb (fun r => negb (mem (cr_module r) data_modules) || modelled (cr_name r)) top_rows = true.
 Proof. vm_compute. reflexivity. Qed.
 
 (** every command the model can mutate the dataset with (modelled, not in the read-only lists) is
